@@ -240,12 +240,14 @@ def confirm_mismatch(ob):
     """merge / += of histograms whose edges differ must panic: try edge pairs differing in exactly one position."""
     import re
     import replay
-    m = re.search(r"hist\[(\d+)\]\.(merge|add_assign)", ob.name)
+    m = re.search(r"hist(_const)?\[(\d+)\]\.(merge|add_assign)", ob.name)
     if not m:
         return None
-    L = int(m.group(1))
-    op = "merge" if m.group(2) == "merge" else "add_assign"
+    L = int(m.group(2))
+    op = "merge" if m.group(3) == "merge" else "add_assign"
     t = {1: "H1", 2: "H2", 3: "H3", 4: "H4", 10: "Histogram10"}.get(L)
+    if m.group(1):
+        t = "HC%d" % L if L <= 4 else None      # const-generic copy: cargo +nightly replay
     if t is None:
         return None
     base = [float(i) for i in range(L + 1)]
